@@ -67,6 +67,11 @@ CHECKS = {
   text="Proof: the handler model is split into decide (status + optional update) and apply; for every request kind, store, policy and user an answer >= 400 carries no update, so the store is exactly as after the automatic home-collection step; read-only methods never update. Tie: histories in which a quarter of the requests are outside the valid vocabulary (broken RRULE, missing/duplicate UIDs, several objects, mixed types, malformed XML, unknown resource types) and the rest from the model's vocabulary; after every request: status and dump vs model, errors leave the API dump and the bytes of the collection tree unchanged, no duplicate UIDs per collection, no collection inside a calendar/address book, verify() succeeds.",
   note="Partial: the inductive well-formedness invariant of the model is being proved separately (Props/C15Inv.lean when present); until then well-formedness is checked by the monitor only. Known finding F19 (empty VCALENDAR accepted) is reported as KNOWN-FINDING. Trusted: Lean kernel, standard axioms; davsim; vobject inside verify().",
   ref="5/C15"),
+ "C03": dict(
+  technique="Lean 4 theorems on the handler model for an arbitrary policy function: every decided update needs the matching write letter (item PUT, whole PUT incl. overwrite gate, MKCOL, MKCALENDAR, DELETE, PROPPATCH, MOVE), GET/PROPFIND show only what r/w-R/W permit, a denied request is the identity; witnesses of F7/F8 + correspondence under generated policies, twin-store non-interference oracle, byte-level denial oracle",
+  text="Proof: with `rights` an arbitrary function user -> path -> letters, each handler of the model is shown to decide an update only under the matching permission and to expose entries only for permitted collections; 403 carries no update. The write clause is partial: changes are confined to the subtree of a target whose root has the letter - that nested collections without any permission are destroyed with it is finding F7 (theorem + replay), the inverted d/D letter for plain collections is F8. Tie: generated policy tables through a rights plug-in, all methods, two users and anonymous, model vs real application; twin stores differing only inside hidden subtrees must answer identically; denied requests leave the collection tree byte-identical; every changed collection must be writable for the user.",
+  note="Partial (write clause as stated above; full non-interference is checked by the twin-store oracle, not proved). Known findings F7, F8, F20 (existence probing 403 vs 404 under exotic policies) are reported as KNOWN-FINDING. Trusted: Lean kernel, standard axioms; davsim + verif_rights plug-in; timing channels out of scope.",
+  ref="5/C03"),
 }
 
 NA_REASON = "check not built yet (work in progress; see DESIGN.md section 5 for the plan)"
